@@ -4,6 +4,9 @@
      arr <code> <pre 0/1> <sz> <scalar> | r.. | x.. | y..  -> result list or UB
      dot <sz> | a.. | b..                                    -> result or UB
      xop <p> <k> <f> <code> a b c   -> Extension<> operation of ExtModel.v on p-adic operands (stateless)
+     gf2 <code> <bitref 0/1> a b c  -> GF2 operation of GF2Model.v (stateless)
+     qinit <p> <k> <f> <bits> <d>   -> GFqExtFast::init(double) of QadicModel.v: p-adic value of the decoded element (stateless)
+     qmaxn <num> <p> <k>            -> num/(p-1)/(p-1)/k
    All operations refer to the last field line. *)
 let zs = z_of_string
 let cur : Model.tables option ref = ref None
@@ -32,6 +35,9 @@ let () = run_lines (fun toks ->
       (hash l2p) (hash p2l) (hash pl1) (if ok then "1" else "0") (if fg then "1" else "0")
       (if q <= 1024 then " T " ^ show l2p ^ " | " ^ show p2l ^ " | " ^ show pl1 else "")
   | ["xop"; p; k; f; c; a; b; d] -> string_of_z (Model.ext_opZ (zs p) (zs k) (zs f) (zs c) (zs a) (zs b) (zs d))
+  | ["gf2"; c; r; a; b; d] -> string_of_z (Model.gf2_opZ (zs c) (zs r) (zs a) (zs b) (zs d))
+  | ["qinit"; p; k; f; bits; d] -> string_of_z (Model.q_initZ (zs p) (zs k) (zs f) (zs bits) (zs d))
+  | ["qmaxn"; n; p; k] -> string_of_z (Model.q_maxn (zs n) (zs p) (zs k))
   | ["op1"; c; a] -> string_of_z (Model.op1 (tab ()) (zs c) (zs a))
   | ["op2"; c; a; b] -> string_of_z (Model.op2 (tab ()) (zs c) (zs a) (zs b))
   | ["op3"; c; a; b; d] -> string_of_z (Model.op3 (tab ()) (zs c) (zs a) (zs b) (zs d))
